@@ -432,7 +432,7 @@ sys_prop(
      "C05_code_follows_the_dfs_and_drains_messages_first", "C05_pass_restores_consistency",
      "C05_late_binding_goes_stale", "C05_recording_as_modelled",
      "C05_code_pass_order_is_one_reversed_post_order", "C05_code_events_reach_the_pass",
-     "C05_reload_relearns_dependencies"],
+     "C05_reload_relearns_dependencies", "C05_a_pass_skips_nothing_that_depends_on_a_change"],
     ["Deps", "HotReloading", "Records", "Anycache", "Asset", "Paths"], ["late-bound-stale", "stale-after-pass"], mode="hot",
     assumptions=["I1: a change counts as notified once the reloader has dequeued the event (settle barrier)",
                  "I2/I3: dependencies are those of the load that produced the cached value; a get_cached that "
